@@ -172,6 +172,12 @@ impl Tileset<RawPixels> {
         let tile_count = reader.dword()?;
         let tile_width = reader.word()?;
         let tile_height = reader.word()?;
+        if tile_width == 0 || tile_height == 0 {
+            return Err(AsepriteParseError::InvalidInput(format!(
+                "Invalid tile size {}x{} in tileset {}",
+                tile_width, tile_height, id
+            )));
+        }
         let tile_size = TileSize {
             width: tile_width,
             height: tile_height,
